@@ -512,6 +512,19 @@ func (g *gen) stepHostile() {
 	}
 }
 
+// bindArgs: mostly none; sometimes a headers-style table, rarely one with an invalid x-match
+func (g *gen) bindArgs() string {
+	switch g.r.Intn(12) {
+	case 0, 1:
+		return "x-match=any,a=1"
+	case 2:
+		return "x-match=all,a=1,b=2"
+	case 3:
+		return "x-match=bogus,a=1"
+	}
+	return "-"
+}
+
 func (g *gen) bs(b bool) string {
 	if b {
 		return "1"
@@ -656,7 +669,7 @@ func (g *gen) stepRandom() {
 		if g.r.Chance(1, 2) {
 			key = g.pick(keys)
 		}
-		g.do(fmt.Sprintf("QB %d %d %s %s %s - %s", c, h, q, x, key, g.b(1, 10)))
+		g.do(fmt.Sprintf("QB %d %d %s %s %s %s %s", c, h, q, x, key, g.bindArgs(), g.b(1, 10)))
 	case k < 195: // unbind
 		q := g.existingQueue(sn)
 		x := g.existingExchange(sn, false)
@@ -664,7 +677,7 @@ func (g *gen) stepRandom() {
 		if g.r.Chance(1, 2) {
 			key = g.pick(keys)
 		}
-		g.do(fmt.Sprintf("QU %d %d %s %s %s -", c, h, q, x, key))
+		g.do(fmt.Sprintf("QU %d %d %s %s %s %s", c, h, q, x, key, g.bindArgs()))
 	case k < 470: // publish
 		g.uid++
 		var ex, key string
